@@ -21,6 +21,9 @@ def run(cases, oracle, extra=None):
         try:
             items = list(P.lib('build', lambda: list(U.materialize(case))))
         except P.LibError as e:
+            if case.get('a') in U.OPTIONAL and isinstance(e.exc, (ValueError, TypeError)):
+                counters['optional_constructions_refused'] += 1
+                continue
             violations.append({'kind': 'construction-raises', 'case': case, 'detail': f'{e}\n{e.tb}'})
             continue
         for desc, op, exact in items:
